@@ -244,12 +244,12 @@ class Interp:
                 # Z[mask] *= -1  ->  where(mask, Z*-1, Z)
                 base_cur = self.eval(st.target.value, fr)
                 mask = self.eval(st.target.slice, fr)
-                newv = self.dom.binop(st.op, self.num(base_cur), self.num(rhs), st)
+                newv = self._binop(st.op, base_cur, rhs, st)
                 val = self.dom.where(mask, newv, self.num(base_cur), st)
                 self.assign(st.target.value, val, fr, st)
                 self._mark_mutated(st.target.value, fr)
                 return "fall"
-            val = self.dom.binop(st.op, self.num(cur), self.num(rhs), st)
+            val = self._binop(st.op, cur, rhs, st)
             self.assign(st.target, val, fr, st)
             if isinstance(st.target, ast.Name):
                 # in-place on an array parameter (Z += W*dt) is a mutation of the argument
